@@ -6,8 +6,8 @@
    and the candidates were collected in Go's random map order) and deleted oldest first while pv has
    more than 3 entries.  Which of several candidates with the SAME value goes first is therefore not
    determined; the model is the executable specification [compact_okb h c h'] ("h' is a possible result
-   of compacting h"), every theorem is stated for every h' it admits, and the deterministic function
-   [compact_with_value] (stable insertion sort, list order) is one admitted result -- the correspondence
+   of compacting h"), every theorem is stated for every h' it allows, and the deterministic function
+   [compact_with_value] (stable insertion sort, list order) is one allowed result -- the correspondence
    checks [compact_okb] on every case and equality with the function when the candidate values are
    pairwise distinct.  Compact(purgeInterval) = compactWithValue(now - purgeInterval), purgeInterval 0
    = disabled. *)
@@ -260,7 +260,7 @@ Proof.
     unfold mem in K2. rewrite E in K2. discriminate.
 Qed.
 
-(* ---------- the deterministic function is an admitted result ---------- *)
+(* ---------- the deterministic function is an allowed result ---------- *)
 From Coq Require Import Permutation Sorted.
 
 Definition le_val (a b : N * N) : Prop := snd a <= snd b.
